@@ -12,7 +12,8 @@ Proved for EVERY bootstrapped configuration and EVERY sequence of edits with any
   recognises the result as derived from the latest configuration;
 * every node still passes `Node.validate` (`edits_keep_valid`);
 * hence `leader.onChangeConfig`'s test "a node of the latest configuration is missing or has another voting right"
-  never rejects what the editing interface produced (`edits_pass_voter_check`).
+  never rejects what the editing interface produced, and neither does the test "a voter the latest configuration does
+  not know" (`edits_pass_voter_check`, `edits_pass_new_voter_check`; ids stay sorted keys: `edits_keep_sorted`).
 What the interface does NOT guarantee, and the model says so: addresses may collide after `AddNonvoter`
 (`addNode_ignores_addresses`) — `Config.validate` inside `ChangeConfig` is what refuses that.
 -/
@@ -248,6 +249,107 @@ theorem edits_pass_voter_check (latest : Config) (es : List Edit) (hb : latest.i
     simp only at hv ⊢
     rw [hv]; simp
 
+/-! ### ids stay sorted keys, and the second voter test of `onChangeConfig` -/
+
+/-- nodes in strictly ascending id order: how the harness, the codec model and `Config.set` keep a Go map -/
+def Sorted (c : Config) : Prop := c.nodes.Pairwise (fun a b => a.id < b.id)
+
+theorem mem_insertSorted' {m x : CNode} {l : List CNode} (h : x ∈ Config.insertSorted m l) : x = m ∨ x ∈ l := by
+  induction l with
+  | nil => simp [Config.insertSorted] at h; exact Or.inl h
+  | cons a as ih =>
+    unfold Config.insertSorted at h
+    split at h
+    · rcases List.mem_cons.mp h with h | h
+      · exact Or.inl h
+      · exact Or.inr h
+    · split at h
+      · rcases List.mem_cons.mp h with h | h
+        · exact Or.inl h
+        · exact Or.inr (List.mem_cons_of_mem _ h)
+      · rcases List.mem_cons.mp h with h | h
+        · exact Or.inr (by rw [h]; exact List.mem_cons_self)
+        · rcases ih h with h | h
+          · exact Or.inl h
+          · exact Or.inr (List.mem_cons_of_mem _ h)
+
+theorem sorted_insert (m : CNode) (l : List CNode) (h : l.Pairwise (fun a b => a.id < b.id)) :
+    (Config.insertSorted m l).Pairwise (fun a b => a.id < b.id) := by
+  induction l with
+  | nil => simp [Config.insertSorted]
+  | cons a as ih =>
+    have ha := List.pairwise_cons.mp h
+    unfold Config.insertSorted
+    split
+    · rename_i hlt
+      refine List.pairwise_cons.mpr ⟨?_, h⟩
+      intro x hx
+      rcases List.mem_cons.mp hx with hx | hx
+      · rw [hx]; exact hlt
+      · exact Nat.lt_trans hlt (ha.1 x hx)
+    · split
+      · rename_i heq
+        refine List.pairwise_cons.mpr ⟨?_, ha.2⟩
+        intro x hx
+        rw [heq]; exact ha.1 x hx
+      · rename_i hnl hne
+        refine List.pairwise_cons.mpr ⟨?_, ih ha.2⟩
+        intro x hx
+        rcases mem_insertSorted' hx with hx | hx
+        · rw [hx]; omega
+        · exact ha.1 x hx
+
+theorem keyed_of_sorted {c : Config} (h : Sorted c) : Keyed c := by
+  unfold Sorted at h
+  unfold Keyed Config.find?
+  generalize c.nodes = l at h
+  induction l with
+  | nil => intro n hn; cases hn
+  | cons a as ih =>
+    have ha := List.pairwise_cons.mp h
+    intro n hn
+    rcases List.mem_cons.mp hn with hn | hn
+    · subst hn; simp [List.find?]
+    · have hlt := ha.1 n hn
+      have : (a.id == n.id) = false := by simp; omega
+      simp only [List.find?, this]
+      exact ih ha.2 n hn
+
+theorem afterEdit_sorted (c : Config) (e : Edit) (h : Sorted c) : Sorted (c.afterEdit e) := by
+  unfold afterEdit
+  split
+  · rename_i c' he
+    obtain ⟨m, hm, _⟩ := applyEdit_ok he
+    subst hm
+    exact sorted_insert m c.nodes h
+  · exact h
+
+theorem edits_keep_sorted (c : Config) (es : List Edit) (h : Sorted c) : Sorted (c.afterEdits es) := by
+  unfold afterEdits
+  induction es generalizing c with
+  | nil => exact h
+  | cons e es ih =>
+    simp only [List.foldl]
+    exact ih (c.afterEdit e) (afterEdit_sorted c e h)
+
+/-- `leader.onChangeConfig` also rejects a configuration with a voter that the latest one does not know.  That test
+never fires either: every voter of an edited configuration is a node — a voter — of the latest one. -/
+theorem edits_pass_new_voter_check (latest : Config) (es : List Edit) (hb : latest.isBootstrapped = true)
+    (hs : Sorted latest) :
+    (latest.afterEdits es).nodes.any (fun n => !latest.has n.id && n.voter) = false := by
+  rw [List.any_eq_false]
+  intro n hn
+  have hk := keyed_of_sorted (edits_keep_sorted latest es hs) n hn
+  have hv := edits_keep_voters latest es hb n.id
+  unfold Config.isVoter at hv
+  rw [hk] at hv
+  simp only [Bool.and_eq_true, Bool.not_eq_true', not_and, Bool.not_eq_true]
+  intro hh
+  unfold Config.has at hh
+  cases hq : latest.find? n.id with
+  | none => rw [hq] at hv; exact hv
+  | some x => rw [hq] at hh; cases hh
+
 /-! ### what the interface does not promise, and non-vacuity -/
 
 def ex : Config :=
@@ -256,10 +358,10 @@ def ex : Config :=
 
 /-- the hypotheses of the theorems above are met by a configuration with voters and a non-voter, and a session in
 which calls succeed and fail -/
-example : ex.isBootstrapped = true ∧ Keyed ex ∧
+example : ex.isBootstrapped = true ∧ Sorted ex ∧ Keyed ex ∧
     (ex.afterEdits [.setData 1 "x", .setAction 7 0, .addVoter 9 "z:9", .setData 3 "y"]).nodes.length = 3 ∧
     ((ex.afterEdits [.setData 1 "x", .setAction 7 0, .addVoter 9 "z:9", .setData 3 "y"]).get 3).data = "y" := by
-  refine ⟨rfl, ?_, by decide, by decide⟩
+  refine ⟨rfl, by unfold Sorted; decide, ?_, by decide, by decide⟩
   intro n hn
   simp only [ex, List.mem_cons, List.mem_nil_iff, or_false] at hn
   rcases hn with rfl | rfl | rfl <;> rfl
@@ -274,4 +376,7 @@ end Raft
 #print axioms Raft.C08Edit.edits_keep_nodes
 #print axioms Raft.C08Edit.edits_keep_valid
 #print axioms Raft.C08Edit.edits_pass_voter_check
+#print axioms Raft.C08Edit.edits_keep_sorted
+#print axioms Raft.C08Edit.keyed_of_sorted
+#print axioms Raft.C08Edit.edits_pass_new_voter_check
 #print axioms Raft.C08Edit.addNode_ignores_addresses
